@@ -3,10 +3,12 @@
 amqp consumer <transport> <env> <address> <capacity|null> -> ok {"ops":[…],"queue":…,"creates":[…]} | err parse|noExchange | unsupported
 amqp producer <transport> <env> <address>      -> ok {"ops":[…],"exchange":…,"subject":…,"creates":[…]} | err parse | unsupported
 amqp send     <transport> <target+queues> <message> -> ok {"frame":…,"delivered":…,"is_returned":…,"returned":…} | unsupported
+amqp sendseq  <transport> <target+queues> <messages> <order> -> ok [{"i":…,"frame":…,"delivered":…,"routed_to":[…]}…] | unsupported
 amqp clamp    <expiry>                         -> ok <text|null> | unsupported
 amqp ack      <transport> <unacked> <tag> <multiple> -> ok <unacked'>
 amqp names    <queue name> <queue type> <instance id> -> ok {names and address strings of the engine}
 amqp route    <actions>                        -> ok <n> | bad <index>
+              (actions of the REST front end carry the queue the start event was seen in: ["submit"|"submitSync", via, e, queue])
 -/
 import AslModel.Drv.Util
 import AslModel.Amqp
@@ -214,13 +216,35 @@ def rdAct : Json → Option Act
   | _ => none
 
 open Asl.AmqpRoute in
+/-- what the REST front end had published, with the queue the start event was *seen* to go to:
+`["submit", via, e, queue]` (StartExecution: `publish(use_shared_queue=True)` of instance `via`) and
+`["submitSync", via, e, queue]` (StartSyncExecution: `via` publishes the start event with the flag clear).  The
+queue must be the model's `route via flag`; the action is then the model's own (`submit`, resp. `via`
+publishing a synchronous start).  `none`: not such an action -/
+def rdRest : Json → Option (Option Act)
+  | .arr [.str k, .num via, .num e, q] =>
+    if 0 ≤ via ∧ 0 ≤ e ∧ (k = s "submit" ∨ k = s "submitSync") then
+      let shared := decide (k = s "submit")
+      if rdQ q = some (route via.toNat shared) then
+        some (some (if shared then .submit via.toNat e.toNat else .spontaneous via.toNat [.childSync e.toNat]))
+      else some none
+    else none
+  | _ => none
+
+open Asl.AmqpRoute in
 /-- run the actions; the index of the first one that is not enabled -/
 def runIdx : Net → List Json → Nat → Except String Nat
   | _, [], n => .ok n
   | st, a :: rest, n =>
-    match rdAct a with
-    | none => .error "unsupported"
-    | some act => match step st act with
+    let act : Except String Act := match rdRest a with
+      | some (some x) => .ok x
+      | some none => .error ("bad\t" ++ toString n)
+      | none => match rdAct a with
+        | some x => .ok x
+        | none => .error "unsupported"
+    match act with
+    | .error e => .error e
+    | .ok act => match step st act with
       | some st' => runIdx st' rest (n + 1)
       | none => .error ("bad\t" ++ toString n)
 
@@ -262,6 +286,21 @@ def handle : List String → String
                          ("is_returned", .bool (isReturned qs f)), ("returned", msgJson (returned tr f))])
       | _, _ => "unsupported"
     | _, _, _ => "unsupported"
+  | ["sendseq", t, tgt, msgs, order] =>
+    match rdTransport t, rd tgt, rd msgs, rd order with
+    | some tr, some (.obj tk), some (.arr ms), some (.arr ord) =>
+      match g tk "exchange", g tk "subject", ms.mapM rdMsg, natList ord with
+      | .str ex, .str su, some ms', some ord' =>
+        if !(ms'.all (fun m => exactExpiry m.expiration)) then "unsupported" else
+        let qs : List Str := match g tk "queues" with
+          | .arr xs => (strList xs).getD []
+          | _ => []
+        let out := (sendSeq tr ⟨ex, su⟩ ms' ord').map (fun p =>
+          o [("i", .num p.1), ("frame", frameJson p.2), ("delivered", msgJson (deliver tr p.2 1 false)),
+             ("routed_to", .arr ((routeDefault qs p.2.routingKey).map Json.str))])
+        "ok\t" ++ js (.arr out)
+      | _, _, _, _ => "unsupported"
+    | _, _, _, _ => "unsupported"
   | ["clamp", e] =>
     match (rd e).bind rdExpiry with
     | some ex => if exactExpiry ex then "ok\t" ++ js (optStrJson (clamp ex)) else "unsupported"
